@@ -233,8 +233,9 @@ package tendermint
 // ---- every input is logged before anything it causes: the first action of a batch is its WAL entry --
 //@ func (*stateMachine).processLoop
 //@   trusted
-//@   modifies *
+//@   modifies s.state.height, s.state.lockedRound, s.state.lockedValue, s.state.validRound, s.state.validValue, s.state.round, s.state.step, s.state.timeoutPrevoteScheduled, s.state.lockedValueAndOrValidValueSet, s.state.timeoutPrecommitScheduled, s.isHeightStarted, s.voteCounter
 //@   modifies maps
+//@   assigns heightFresh, calls_AddPrevote, arg_AddPrevote_prevote, calls_AddPrecommit, arg_AddPrecommit_precommit
 //@   ensures keeps_prefix: len(result) >= len(resultActions) && (forall j int :: 0 <= j && j < len(resultActions) ==> result[j] == old(resultActions[j]))
 
 //@ extern func github.com/NethermindEth/juno/consensus/types.Message.Header
